@@ -10,12 +10,13 @@ def _set(xs):
 
 
 def core_cfg(path, keys, datas, algos, times, metas, dests, fam, maxops, collide=False,
-             exportat=0, invariants=(), properties=(), view="mview"):
+             exportat=0, invariants=(), properties=(), view="mview", multisri=False):
     txt = "CONSTANTS\n"
     txt += "  Keys = %s\n  Datas = %s\n  Algos = %s\n  Times = %s\n  Metas = %s\n  Dests = %s\n" % (
         _set(keys), _set(datas), _set(algos), _set(times), _set(metas), _set(dests))
     txt += "  Fam = %s\n  MaxOps = %d\n  Collide = %s\n  ExportAt = %d\n" % (
         _set(fam), maxops, "TRUE" if collide else "FALSE", exportat)
+    txt += "  MultiSri = %s\n" % ("TRUE" if multisri else "FALSE")
     txt += "  LenOf <- MCLenOf\n  BucketOf <- MCBucketOf\n  ReflinkOK = FALSE\n"
     txt += "SPECIFICATION MCSpec\n"
     if view:
@@ -67,3 +68,16 @@ def fs_cfg(path, procs, ops, maxstarts, crash, faults, invariants, properties=()
     with open(path, "w") as f:
         f.write(txt)
     return path
+
+
+def find_model_counterexample(module, cfg, workdir, workers=8, timeout=900):
+    """Run a configuration that is EXPECTED to be able to fail; returns (violated property or
+    None, TLC output)."""
+    res = run_tlc(module, cfg, workdir, workers=workers, timeout=timeout, heap="8g")
+    if tlc_ok(res):
+        return None, res
+    v = tlc_violation(res)
+    if v is None:
+        raise ToolError("model checking of %s/%s failed without a property violation:\n%s" % (
+            module, os.path.basename(cfg), res["out"][-2000:]))
+    return v, res
